@@ -47,10 +47,16 @@ func (c *flagNameChecker) VisitExpr(expr ast.Expr) {
 	switch sym.Name {
 	case "Bool", "Duration", "Float64", "String",
 		"Int", "Int64", "Uint", "Uint64":
-		c.checkFlagName(call, call.Args[0])
+		// A call may forward the results of another call, flag.Bool(f()),
+		// in which case there is no separate name argument to look at.
+		if len(call.Args) > 0 {
+			c.checkFlagName(call, call.Args[0])
+		}
 	case "BoolVar", "DurationVar", "Float64Var", "StringVar",
 		"IntVar", "Int64Var", "UintVar", "Uint64Var":
-		c.checkFlagName(call, call.Args[1])
+		if len(call.Args) > 1 {
+			c.checkFlagName(call, call.Args[1])
+		}
 	}
 }
 
